@@ -309,7 +309,11 @@ Section Loop.
     end.
 End Loop.
 
-(* pool = data.non_merged_items() unless either alias option is on *)
+(* "own_keys is not None and key not in own_keys": the entry came through a
+   merge key and neither alias option is on (own_keys = the keys of
+   data.non_merged_items()).  The loop walks data.items(); such an entry has
+   its key and value anchors classified like any other and is then skipped
+   through record_anchors. *)
 Definition skip_merged (oi : N) (pos : nat) : bool :=
   is_merged mt oi pos && negb (o_kalias o || o_valias o).
 
@@ -337,19 +341,18 @@ Fixpoint yield_children (n : node) (bp : string) (lc : loc) (kd : hkind) (seen :
       loop (fun kv pos seen =>
               let key := fst kv in
               let val := snd kv in
-              if skip_merged (oid i) pos then Ok ([], seen)
-              else
-                let tmp := pre ++ escp (key_text key) in
-                let lc' := (lc ++ [key_ref key])%list in
-                do ka_s <- search_anchor key seen (o_kalias o);
-                do va_s <- search_anchor val (snd ka_s) (o_valias o);
-                let ka := fst ka_s in
-                let va := fst va_s in
-                let seen2 := snd va_s in
-                if (negb (o_kalias o) && is_excl ka) || (negb (o_valias o) && is_excl va)
-                then Ok ([], record_anchors val seen2)
-                else if is_container val then yield_children val tmp lc' kd seen2
-                else Ok ([mkhit tmp lc' (HChild kd)], seen2))
+              let tmp := pre ++ escp (key_text key) in
+              let lc' := (lc ++ [key_ref key])%list in
+              do ka_s <- search_anchor key seen (o_kalias o);
+              do va_s <- search_anchor val (snd ka_s) (o_valias o);
+              let ka := fst ka_s in
+              let va := fst va_s in
+              let seen2 := snd va_s in
+              if skip_merged (oid i) pos
+                 || (negb (o_kalias o) && is_excl ka) || (negb (o_valias o) && is_excl va)
+              then Ok ([], record_anchors val seen2)
+              else if is_container val then yield_children val tmp lc' kd seen2
+              else Ok ([mkhit tmp lc' (HChild kd)], seen2))
            kvs 0 seen
   | NSet _ els =>
       let pre := map_prefix bp in
@@ -429,31 +432,30 @@ Fixpoint search_for_paths (n : node) (bp : string) (lc : loc) (seen : list strin
         loop (fun kv pos seen =>
                 let key := fst kv in
                 let val := snd kv in
-                if skip_merged (oid i) pos then Ok ([], seen)
+                let tmp := pre ++ escp (key_text key) in
+                let lc' := (lc ++ [key_ref key])%list in
+                do ka_s <- search_anchor key seen (o_kalias o);
+                do va_s <- search_anchor val (snd ka_s) (o_valias o);
+                let ka := fst ka_s in
+                let va := fst va_s in
+                let seen2 := snd va_s in
+                if skip_merged (oid i) pos || (negb (o_kalias o) && is_excl ka)
+                then Ok ([], record_anchors val seen2)
                 else
-                  let tmp := pre ++ escp (key_text key) in
-                  let lc' := (lc ++ [key_ref key])%list in
-                  do ka_s <- search_anchor key seen (o_kalias o);
-                  do va_s <- search_anchor val (snd ka_s) (o_valias o);
-                  let ka := fst ka_s in
-                  let va := fst va_s in
-                  let seen2 := snd va_s in
-                  if negb (o_kalias o) && is_excl ka then Ok ([], record_anchors val seen2)
-                  else
-                    (* the key part: Some result = `continue` was reached *)
-                    do kres <-
-                      (if o_keys o then
-                         if is_hit ka then
-                           do hs <- report val tmp lc' HKeyAnchor seen2; Ok (Some hs)
-                         else
-                           do m <- term_matches (node_hay key);
-                           if m then do hs <- report val tmp lc' HKey seen2; Ok (Some hs)
-                           else Ok None
-                       else Ok None);
-                    match kres with
-                    | Some hs => Ok hs
-                    | None => value_part (fun v t l s => search_for_paths v t l s) va val tmp lc' seen2
-                    end)
+                  (* the key part: Some result = `continue` was reached *)
+                  do kres <-
+                    (if o_keys o then
+                       if is_hit ka then
+                         do hs <- report val tmp lc' HKeyAnchor seen2; Ok (Some hs)
+                       else
+                         do m <- term_matches (node_hay key);
+                         if m then do hs <- report val tmp lc' HKey seen2; Ok (Some hs)
+                         else Ok None
+                     else Ok None);
+                  match kres with
+                  | Some hs => Ok hs
+                  | None => value_part (fun v t l s => search_for_paths v t l s) va val tmp lc' seen2
+                  end)
              kvs 0 seen;
       do y <- ymk_hits pre lc (oid i);
       Ok ((fst body ++ y)%list, snd body)
